@@ -404,7 +404,7 @@ def run_r1(repo: Repo, res: Result) -> None:
     if R._store_index is None:
         R._build_store_index()
     roots = evaluation_roots(repo)
-    reach_eval = reachable_funcs(repo, roots, byname=True)
+    reach_eval = _eval_reach(repo)
     # long-lived graph holders: an instance attribute holds a networkx graph, and methods of the class take part in evaluations
     # (a builder object that lives only inside a constructor is not one of them)
     graph_classes = []
@@ -511,6 +511,13 @@ def run_r1(repo: Repo, res: Result) -> None:
 
 
 # --------------------------------------------------------------------------- R2
+
+
+def _eval_reach(repo: Repo) -> dict:
+    key = "_c15_eval_reach"
+    if key not in repo.__dict__:
+        repo.__dict__[key] = reachable_funcs(repo, evaluation_roots(repo), byname=True)
+    return repo.__dict__[key]
 
 
 def _roots(repo: Repo) -> Roots:
@@ -826,7 +833,7 @@ def run_r2(repo: Repo, res: Result) -> None:
     T = types_of(repo)
     R = _roots(repo)
     roots = evaluation_roots(repo)
-    reach = reachable_funcs(repo, roots, byname=True)
+    reach = _eval_reach(repo)
     # reviewed exception: idempotent self-rewrites of an entry point (the alias rewrite of Rule._configuration)
     rewrites: list[Rewrite] = []
     accepted: set[int] = set()
@@ -872,6 +879,34 @@ def run_r2(repo: Repo, res: Result) -> None:
             res.add("C15.R2", key, ok, rw.detail if ok else f"the rewrite of `self.{rw.field}` in {rw.root.qualname} is not idempotent: {rw.detail}", where(fi0, node0), kind="effect")
     res.analysed["evaluation_reachable_functions"] = len(reach)
     res.analysed["effect_rounds"] = S.rounds
+    # positive fixture (the expected number of findings on the real tree is zero): every textbook way of writing to a long-lived
+    # object must be seen, every textbook way of working on fresh objects must be accepted
+    import shutil
+
+    tmp, frepo = _fixture_repo("ownership.py")
+    try:
+        FT = types_of(frepo)
+        FR = Roots(frepo, FT)
+        FS = EffectSummaries(frepo, FT, FR, frepo.all_functions())
+        wrong = []
+        seen_bad = seen_ok = 0
+        for f in frepo.all_functions():
+            if f.cls is None or f.cls.name != "Holder" or not (f.name.startswith("bad_") or f.name.startswith("ok_")):
+                continue
+            mine = [e for e in FS.of(f) if e.tag[0][0] in ("self", "param") and e.tag[0][1] == f.fq]
+            if f.name.startswith("bad_"):
+                seen_bad += 1
+                if not mine:
+                    wrong.append(f"{f.name}: write to a long-lived object not seen")
+            else:
+                seen_ok += 1
+                if mine:
+                    wrong.append(f"{f.name}: `{mine[0].write.text}` taken for a write to a long-lived object")
+        if wrong or seen_bad < 15 or seen_ok < 8:
+            raise AnalysisError(f"C15.R2 fixture: ownership analysis does not classify the fixture as expected ({'; '.join(wrong) or 'fixture methods not found'})")
+        res.add("C15.R2", "fixture::engine/rules/c15_fixtures/ownership.py", True, f"positive fixture recognised: {seen_bad} ways of writing to long-lived objects flagged, {seen_ok} ways of working on fresh objects accepted", nontrivial=False)
+    finally:
+        shutil.rmtree(tmp, ignore_errors=True)
 
 
 # --------------------------------------------------------------------------- R3
@@ -975,7 +1010,7 @@ class Order:
         T, repo = self.T, self.repo
         out = []
         for f in repo.all_functions():
-            if isinstance(f.node, ast.Lambda) or not any(isinstance(n, (ast.For, ast.AsyncFor)) for n in own_nodes(f.node)):
+            if isinstance(f.node, ast.Lambda) or not any(isinstance(n, (ast.For, ast.AsyncFor)) and self.unordered(f, n.iter) for n in own_nodes(f.node)):
                 continue
             v = inline_view(repo, f, T)
             for lp in own_nodes(v.node):
